@@ -35,11 +35,21 @@ typedef GenericDocument<DNode<MemoryPoolAllocator<SimpleAllocator, AdaptiveChunk
 
 // a document bound to a pool that works inside a caller-supplied buffer: a heap block of exactly offset+size bytes (ASan sees
 // the first byte beyond it), the buffer starting `offset` bytes into it (0..7: aligned or not)
-static size_t g_ub_size = 1024, g_ub_off = 0;
+static size_t g_ub_size = 1024, g_ub_off = 0, g_ub_fill = 0;
 struct UbHolder {
   std::unique_ptr<char[]> mem;
   MemoryPoolAllocator<> pool;
-  UbHolder() : mem(new char[g_ub_size + g_ub_off]), pool(mem.get() + g_ub_off, g_ub_size) {}
+  UbHolder() : mem(fresh()), pool(mem.get() + g_ub_off, g_ub_size) {}
+  // the caller's buffer arrives with arbitrary old contents (g_ub_fill selects one of several hostile patterns): nothing the
+  // parser does may depend on them
+  static char* fresh() {
+    static const char* pat[] = {"\xee", "]}", ",1", " ", "\"", ":[", "x"};
+    char* m = new char[g_ub_size + g_ub_off];
+    const char* p = pat[g_ub_fill % 7];
+    size_t pl = strlen(p);
+    for (size_t i = 0; i < g_ub_size + g_ub_off; i++) m[i] = p[i % pl];
+    return m;
+  }
 };
 struct UserBufDoc : private UbHolder, public Document {
   UserBufDoc() : UbHolder(), Document(&this->pool) {}
@@ -179,6 +189,20 @@ static void run_all(const std::string& text, const std::string& valid, const MV&
       }
       case 4: o = run_history<UserBufDoc>(hist, text, valid, valid_mv); break;
       default: o = run_history<AdaptDoc>(hist, text, valid, valid_mv); break;
+    }
+    if (kind == 4) {
+      // the same history again with the caller's buffer pre-filled with other bytes (closers, commas, quotes, blanks ...): the
+      // outcome must not depend on what lies in memory the parser has not written
+      for (size_t f = 1; f < 7; f++) {
+        g_ub_fill = f;
+        Out o3 = run_history<UserBufDoc>(hist, text, valid, valid_mv);
+        c.subevals++;
+        if (!(o == o3)) {
+          g_ub_fill = 0;
+          throw Failure{"outcome depends on the previous contents of the caller-supplied pool buffer (fill pattern " + std::to_string(f) + "): " + o.show() + " vs " + o3.show()};
+        }
+      }
+      g_ub_fill = 0;
     }
 #if !defined(VF_ASAN)
     // production flavour: the outcome must not depend on what uninitialised heap memory contains
